@@ -11,6 +11,9 @@ TRUSTED_BASE = [
 
 LEVEL = {}
 
+# proof module per property when it is not LadimProofs/<id>.lean
+MODULES = {"C12": "C12Fjord"}
+
 OBLIGATIONS = {
     "C05": [
         "C05.reflect_band", "C05.reflectPred_band", "C05.reflect_disp_band", "C05.advect_band",
@@ -122,5 +125,18 @@ OBLIGATIONS = {
         "C14.vertW_linear", "C14.w_linear", "C14.w_lateral_zero", "C14.wcum_eq_sum", "C14.vert_flat", "C14.vertW_flat",
         "C14.w_flat_identity", "C14.w_bed_zero_flat", "C14.w_surface_zero_flat", "C14.w_zero_nondivergent",
         "C14.w_positive_surface_convergence", "C14.dW_is_minus_divergence",
+    ],
+    "C12": [
+        "C12BFS.minNonneg_spec", "C12BFS.dilate_step_sound", "C12BFS.dilate_iter_spec", "C12BFS.descent_lowers",
+        "C12BFS.follow_reaches_ocean", "C12BFS.dilateIter_descending", "C12.bdilateIter_spec", "C12.fjordInput_init",
+        "C12.land_is_obstacle", "C12.fjord_index_is_shortest_path", "C12.follow_fjord_index_reaches_ocean",
+        "C12.ocean_velocity_zero", "C12.picture_orientation_fails",
+    ],
+    "C15": [
+        "C15.clampIdx_range", "C15.clampIdx_inside", "C15.clampIdx_edges", "C15.clampIdx_nearest", "C15.raw_wraps_fails",
+        "C15.raw_raises_fails", "C15.raw_agrees_inside", "C15.bilinear_at_node", "C15.bilinear_between",
+        "C15.trilinear_weights", "C15.sample3D_convex", "C15.velocity_is_layer_value", "C15.z2sK_range", "C15.z2sA_unit",
+        "C15.countBelow_brackets", "C15.z2s_reproduces_depth", "C15.vertdiffLevel_interior", "C15.vertdiff_nonneg",
+        "C15.horzdiff_nonneg", "C15.horzdiff_zero_on_land",
     ],
 }
